@@ -74,7 +74,7 @@ def oracle(s, folded):
 
 
 def run(ctx, res):
-    from icalendar.parser import Contentline, Contentlines
+    from icalendar.parser import Contentline, Contentlines, foldline
     import icalendar
     cases = gen_lines(ctx)
     res.rule = ("content lines: every ASCII length 0-400, one 2/3/4-octet character at every alignment against the "
@@ -91,6 +91,19 @@ def run(ctx, res):
                 Contentline("X-BROKEN:" + "\u00e9" * (ci % 40) + "abc\ud800tail" + "z" * 80).to_ical()
             except UnicodeError:
                 n_refused += 1
+        if ci % 3 == 1:
+            # the optional arguments of foldline: another width / another separator fold the same text accordingly, and leave
+            # nothing behind for the default route below
+            for L, sep in ((40, "\r\n "), (120, "\r\n\t"), (75, "\n ")):
+                try:
+                    f = foldline(s, limit=L, fold_sep=sep)
+                except (AssertionError, UnicodeError):
+                    continue
+                res.evaluations += 1
+                segs = f.split(sep)
+                if f.replace(sep, "") != s or any(len(x.encode("utf-8")) > L for x in segs):
+                    res.fail("C06 oracle: foldline(line, limit=%d, fold_sep=%r) does not fold to that width or does not unfold "
+                             "to the line" % (L, sep), s, observed=f[:300])
         folded = Contentline(s).to_ical()
         impl.append(folded)
         res.count(s, nontrivial=len(s.encode("utf-8")) > 74)
